@@ -445,6 +445,16 @@ fn gen_foreign(cfg: &Cfg, r: &mut Rng) -> Item {
     // rare coincidences nobody samples by accident: a valid frame whose checksum is all zeros,
     // all ones, starts with 0xD3 (so the frame's tail looks like the next preamble/header), or
     // equals its own first payload bytes
+    if l >= 3 && r.chance(0.02) {
+        // an "inner checksum": the payload ends with the CRC-24Q of everything before it, as if an
+        // encoder had counted the checksum in the length field; the real checksum follows as usual
+        let mut v = vec![0xD3, ((reserved & 0x3F) << 2) | ((l >> 8) as u8 & 3), l as u8];
+        v.extend_from_slice(&p[..l - 3]);
+        let c = crc24q(&v);
+        let mut q = p[..l - 3].to_vec();
+        q.extend_from_slice(&[(c >> 16) as u8, (c >> 8) as u8, c as u8]);
+        return Item::new(format!("foreign:L={},r={},inner_crc", l, reserved), "foreign", make_frame(reserved, &q), true);
+    }
     if l >= 3 && r.chance(0.08) {
         let target: u32 = match r.below(7) {
             0 => 0x000000,
